@@ -35,9 +35,31 @@ C = '// other\ndef other { salt: "sc" splitters: uid if f in (1, 2) { return ' +
 TA = '/* c */ def exp { splitters: uid return "TA" weighted 1 }'
 TB = 'def exp { /* d\n */ splitters: uid return "TB" weighted 1 }'
 TC = 'def oth { splitters: uid return "TC" weighted 1 // e\n }'
-TEXTS = {"A": A, "B": B, "C": C, "TA": TA, "TB": TB, "TC": TC}
+# texts that are refused AFTER parsing (code generation / compile / exec stage) and before it
+BAD_PY = 'def class { splitters: uid return "P" weighted 1 }'
+BAD_KW = 'def exp { splitters: kwargs, uid return "P" weighted 1 }'
+BAD_SYN = 'def exp { splitters: uid return "S" weighted }'
+BAD = {"BAD_PY": BAD_PY, "BAD_KW": BAD_KW, "BAD_SYN": BAD_SYN}
+def _nested(tag, d):
+    c = f'return "{tag}" weighted 1'
+    for k in reversed(range(d)):
+        c = f'if f{k} == 1 {{ {c} }} else {{ return "{tag}e{k}" weighted 1 }}'
+    return f"def exp_{tag} {{ splitters: uid {c} }}"
+
+
+# deeper than anything else this process compiles (tables that grow on demand: by depth, by size)
+NA, NB = _nested("NA", 18), _nested("NB", 19)
+TEXTS = {"A": A, "B": B, "C": C, "TA": TA, "TB": TB, "TC": TC, "NA": NA, "NB": NB}
+MODSETS = {"core": xsched.CORE_MODULES, "deep": xsched.DEEP_MODULES, "gen": ["pyab_experiment.codegen.python.python_generator"],
+           "models": ["pyab_experiment.data_structures.syntax_tree", "pyab_experiment.language.grammar"]}
 INPUTS = [{"uid": 1, "f": 1}, {"uid": "x", "f": 0}, {"uid": 7, "f": 2}]
 TABLE = {}
+
+
+def _inputs_for(k):
+    if k in ("NA", "NB"):
+        return [dict({f"f{j}": 1 for j in range(20)}, uid=1), dict({f"f{j}": (1 if j < 9 else 0) for j in range(20)}, uid=1), dict({f"f{j}": 0 for j in range(20)}, uid=1)]
+    return INPUTS
 
 
 def _tables():
@@ -46,7 +68,7 @@ def _tables():
         b = impl.build(t)
         if b[0] != "ok":
             raise HarnessFault(f"harness text {k} does not compile sequentially: {b}")
-        out[k] = [norm(impl.call(b[1], x)) for x in INPUTS]
+        out[k] = [norm(impl.call(b[1], x)) for x in _inputs_for(k)]
     return out
 
 
@@ -69,6 +91,8 @@ def norm(out):
 
 
 def model(state, op):
+    if op[0] == "recompile" and op[1] in BAD:
+        return state, ("raise",)
     if op[0] == "recompile":
         return op[1], ("ok",)
     if op[0] == "new":
@@ -86,17 +110,19 @@ def op_call(ex, tid, ev, xi):
 def op_recompile(ex, tid, ev, key):
     ex.inv(tid, ("recompile", key))
     try:
-        ev.recompile(TEXTS[key])
+        ev.recompile(BAD[key] if key in BAD else TEXTS[key])
         r = ("ok",)
+    except xsched.Deadlock:
+        raise
     except Exception as e:  # noqa
-        r = ("raise", type(e).__name__)
+        r = ("raise",) if key in BAD else ("raise", type(e).__name__)
     ex.res(tid, ("recompile", key), r)
 
 
 def harness(name):
     """-> make_bodies for xsched.run_schedule"""
     if name.startswith("H1"):
-        keys = ["TA", "TB"] if name == "H1t" else ["A", "B", "C"][: int(name[2:] or 2)]
+        keys = ["TA", "TB"] if name == "H1t" else (["NA", "NB"] if name == "H1n" else ["A", "B", "C"][: int(name[2:] or 2)])
 
         def make():
             ctx = {"results": {}, "kind": "H1", "keys": keys}
@@ -107,7 +133,7 @@ def harness(name):
                     if b[0] != "ok":
                         ctx["results"][tid] = ("build", b[1:])
                         return
-                    ctx["results"][tid] = [norm(impl.call(b[1], x)) for x in INPUTS]
+                    ctx["results"][tid] = [norm(impl.call(b[1], x)) for x in _inputs_for(k)]
 
                 return run
 
@@ -162,6 +188,28 @@ def harness(name):
             ctx = {"kind": "lin", "ev": ev}
             return [lambda ex, tid: (op_call(ex, tid, ev, 0), op_call(ex, tid, ev, 0), op_call(ex, tid, ev, 1)),
                     lambda ex, tid: (op_call(ex, tid, ev, 2), op_call(ex, tid, ev, 2), op_call(ex, tid, ev, 1))], ctx  # fmt: skip
+
+        return make
+    if name.startswith("H7"):
+        # shared evaluator on TA: T0 is given a text that is refused (H7a/b: after parsing, H7c: by the parser) and carries on;
+        # T1 recompiles to a valid text.  Nothing a refused recompile leaves behind (a lock still held, a half-written table)
+        # may stop or disturb the other thread - a thread that can never finish is reported as a deadlock by the scheduler
+        bad = {"H7a": "BAD_PY", "H7b": "BAD_KW", "H7c": "BAD_SYN"}[name]
+
+        def make():
+            ev = impl.ExperimentEvaluator(TA)
+            ctx = {"kind": "lin", "ev": ev, "init": "TA", "epilogue": True}
+
+            def t0(ex, tid):
+                op_recompile(ex, tid, ev, bad)
+                op_call(ex, tid, ev, 0)
+                op_recompile(ex, tid, ev, bad)
+
+            def t1(ex, tid):
+                op_recompile(ex, tid, ev, "TB")
+                op_call(ex, tid, ev, 0)
+
+            return [t0, t1], ctx
 
         return make
     if name == "H4t":
@@ -220,6 +268,13 @@ def check(ex, ctx):
             if got != TABLE[k]:
                 return {"kind": "sched:H1", "why": f"thread {tid} constructing text {k}: results {short(repr(got), 160)}; sequentially {short(repr(TABLE[k]), 160)}"}
         return None
+    try:
+        return _check_lin(ex, ctx)
+    except xsched.Deadlock as e:
+        return {"kind": "sched:deadlock", "why": f"after all threads were joined the evaluator can no longer be used: {e}"}
+
+
+def _check_lin(ex, ctx):
     ops = xsched.history_ops(ex)
     # after the join: probe the evaluator; the probe is one more sequential op
     ev = ctx["ev"]
@@ -239,6 +294,8 @@ def check(ex, ctx):
             try:
                 ev.recompile(TEXTS[key])
                 r = ("ok",)
+            except xsched.Deadlock:
+                raise
             except Exception as e:  # noqa
                 r = ("raise", type(e).__name__)
             probe = [norm(impl.call(ev, x)) for x in INPUTS]
@@ -261,11 +318,17 @@ PLAN = {
               ("H5", "line", "core", 2, None), ("H6_16", "line", "core", 1, None), ("H6_64", "line", "core", 1, None), ("H6_128", "line", "core", 1, None),
               # always: function-entry points inside the vendored lexer / parser / models / generator (state shared through a CLASS
               # attribute or a module global leaves no shared instance behind and restores itself, so nothing would trigger the escalation)
-              ("H1t", "call", "deep", 1, None), ("H4t", "call", "deep", 1, None)],
+              ("H1t", "call", "deep", 1, None), ("H4t", "call", "deep", 1, None),
+              # every single preemption between two BYTECODES of the evaluator / wrapper / binning modules (two stores written on one line)
+              ("H7a", "attr", "core", 99, None), ("H7b", "attr", "core", 99, None), ("H7c", "attr", "core", 99, None), ("H7a", "line", "core", 1, None),
+              # two deeply nested sources (deeper than anything compiled before) at every line of the code generator and of the models
+              ("H1n", "line2", "gen", 1, None), ("H1n", "line2", "models", 1, None),
+              ("H2", "instr", "core", 1, None), ("H3", "instr", "core", 1, None), ("H4", "instr", "core", 1, None), ("H5", "instr", "core", 1, None)],
     "thorough": [("H2", "attr", "core", 99, None), ("H3", "attr", "core", 99, None), ("H4", "attr", "core", 99, None),
                  ("H12", "line", "core", 2, None), ("H13", "line", "core", 2, None), ("H2", "line", "core", 3, None), ("H3", "line", "core", 3, None),
                  ("H4", "line", "core", 2, None), ("H5", "line", "core", 3, None), ("H2", "instr", "core", 2, None), ("H3", "instr", "core", 2, None),
-                 ("H5", "instr", "core", 2, None), ("H12", "instr", "core", 1, None),
+                 ("H5", "instr", "core", 2, None), ("H12", "instr", "core", 1, None), ("H4", "instr", "core", 2, None), ("H7a", "attr", "core", 99, None), ("H7b", "attr", "core", 99, None), ("H7c", "attr", "core", 99, None),
+                 ("H7a", "line", "core", 2, None), ("H7b", "line", "core", 2, None), ("H1n", "line", "gen", 1, None), ("H1n", "line", "models", 1, None), ("H1n", "call", "deep", 2, None),
                  ("H6_16", "line", "core", 2, None), ("H6_32", "line", "core", 1, None), ("H6_64", "line", "core", 2, None), ("H6_100", "line", "core", 1, None),
                  ("H6_128", "line", "core", 2, None), ("H6_256", "line", "core", 1, None), ("H6_512", "line", "core", 1, None), ("H6_1024", "line", "core", 1, None),
                  ("H1t", "call", "deep", 2, None), ("H4t", "call", "deep", 2, None), ("H12", "call", "deep", 1, None), ("H1t", "line", "deep", 1, None)],
@@ -277,8 +340,9 @@ def _work(units):
     out = {"cov": {}, "viol": [], "outcomes": [], "samples": [], "known": {}}
     for (hname, mode, mods, bound, cap, prefix) in units:
         stats = {}
-        modules = xsched.CORE_MODULES if mods == "core" else xsched.DEEP_MODULES
-        with xsched.Instrument(mode, modules) as ins:
+        modules = MODSETS[mods]
+        xsched.VISITS_MAX[0] = int(mode[len(mode.rstrip("0123456789")):] or 0)
+        with xsched.Instrument(mode.rstrip("0123456789"), modules) as ins:
             v = xsched.explore(harness(hname), check, bound, prefix=prefix, stats=stats, cap=cap, isolate=ISOLATE[0])
             shared = ins.shared_instances()
         for k, n in stats.items():
@@ -303,7 +367,8 @@ def _probe(entry):
     from ..xlife import global_fingerprint
 
     hname, mode, mods, bound, cap = entry
-    modules = xsched.CORE_MODULES if mods == "core" else xsched.DEEP_MODULES
+    modules = MODSETS[mods]
+    mode = mode.rstrip("0123456789")
     stride = 1
     if mode == "call":
         # choose the stride so that the default schedule has a few hundred points (measured in a throw-away child)
@@ -348,10 +413,18 @@ def plan_units(res, entry):
     res.set(f"points_default_schedule/{hname}/{mode}/{mods}", len(points))
     choices = [p[3] for p in points]
     units = [(hname, mode, mods, bound, cap, "ROOT")]
+    # "line2": the first deviation is taken only at the first 2 visits of every (thread, line) - loops and recursive descents
+    # visit the same line hundreds of times; state that is built lazily is built at the first visits
+    visits_max = int(mode[len(mode.rstrip("0123456789")):] or 0)
+    seen = {}
     for i, (_t, _l, n_en, _c, is_exit, _g) in enumerate(points):
         cost = xsched.preemptions(points, i) + (0 if is_exit else 1)
         if cost > bound:
             continue
+        if visits_max:
+            seen[(_t, _l)] = seen.get((_t, _l), 0) + 1
+            if seen[(_t, _l)] > visits_max and not is_exit:
+                continue
         for alt in range(1, n_en):
             units.append((hname, mode, mods, bound, cap, tuple(choices[:i] + [alt])))
     return units
@@ -424,9 +497,9 @@ def _work_split(units):
 
 def replay(data):
     prepare()
-    modules = xsched.CORE_MODULES if data.get("modules", "core") == "core" else xsched.DEEP_MODULES
+    modules = MODSETS[data.get("modules", "core")]
     xsched.CALL_STRIDE[0] = data.get("stride", 1)
-    with xsched.Instrument(data["mode"], modules):
+    with xsched.Instrument(data["mode"].rstrip("0123456789"), modules):
         ex, ctx = xsched.run_schedule(harness(data["harness"]), data["schedule"])
         if ex.fault:
             return False, f"schedule no longer replays: {ex.fault}"
